@@ -604,8 +604,12 @@ class AsyncServer:
             #     change `pipeline.pop(uid)` in `_gather_output` to `pipeline.pop(uid, None)`;
             # (2) in `call`, protect the calll to `_enqueue` by an `asyncio.shield`.
 
-            self._input_buffer.put((uid, x))
+            # Nevertheless the ledger entry must exist before the request enters the pipeline:
+            # `_gather_output` runs in another thread, and a fast worker's result that arrives
+            # before the entry exists would be dropped. There is no `await` between the two
+            # statements, hence no cancellation point; `_input_buffer.put` does not block or fail.
             pipeline[uid] = fut
+            self._input_buffer.put((uid, x))
 
         fut.data['t1'] = perf_counter()  # enqueing finished if `t1` != `t0`
         return fut
